@@ -18,8 +18,8 @@
    of X repeated d times, IndicatorGroupL1UnitBall(exponent 2) and Huber on X^d likewise;
    IndicatorSumConstraint on a uniformly weighted space.  The KL family has its own
    theorems below (its values involve ln).                                                              *)
-From Coq Require Import Reals Lra Lia String List Bool.
-From Verif Require Import Base.Num Base.Vec Base.VecR C07.Model C07.Convex C07.Leaves C07.LeafThms C07.Rules C07.L2 C07.Compose C07.Sorting C07.KL C07.Group C07.Proofs C07.Sound C07.Refuted C07.BindSyntax Gen.ProxBindings C07.Bindings.
+From Coq Require Import QArith Qreals Reals Lra Lia String List Bool.
+From Verif Require Import Base.Num Base.Vec Base.VecR C07.Model C07.Convex C07.Leaves C07.LeafThms C07.Rules C07.L2 C07.Compose C07.Sorting C07.KL C07.Group C07.Proofs C07.Sound C07.Refuted C07.BindSyntax Gen.ProxBindings C07.Bindings C07.Transfer.
 Import ListNotations.
 Local Open Scope R_scope.
 
@@ -468,6 +468,30 @@ Proof. repeat split; reflexivity. Qed.
 Print Assumptions source_wiring_of_derived_functionals.
 Example carriers_satisfy_one : @of_Z R _ 1%Z = none_ /\ @of_Z QArith_base.Q _ 1%Z = none_.
 Proof. split; reflexivity. Qed.
+
+(* ===== Transfer: what the shards execute at Q is the rational restriction of what is proved at R =====
+   For every functional tree without square roots (all leaves except L2Norm, the 2-ball, the pointwise-2-norm
+   group functionals and Huber on vector fields; all rules except quadratic perturbation, whose constant is
+   1/sqrt(2 sigma a + 1)), every step specification and every rational input: Q2R commutes with fval and fprox
+   (the insertion sort, the simplex scan and every comparison included; x/0 = 0 on both sides). *)
+Theorem model_value_transfer : forall e : @fexpr Q, sqrt_free e = true -> forall x : list Q,
+  extQR (fval e x) = fval (fexprQR e) (map Q2R x).
+Proof. exact fval_transfer. Qed.
+Print Assumptions model_value_transfer.
+Theorem model_prox_transfer : forall e : @fexpr Q, sqrt_free e = true -> forall (s : @sig Q) (x : list Q),
+  resQR (fprox e s x) = fprox (fexprQR e) (sigQR s) (map Q2R x).
+Proof. exact fprox_transfer. Qed.
+Print Assumptions model_prox_transfer.
+Theorem proj_simplex_transfers : forall (d : Q) (x : list Q),
+  resQR (proj_simplex d x) = proj_simplex (Q2R d) (map Q2R x).
+Proof. exact proj_simplex_transfer. Qed.
+Print Assumptions proj_simplex_transfers.
+Theorem rules_transfer : forall pq pr, fac_transfer pq pr ->
+  (forall y, fac_transfer (prox_translation pq y) (prox_translation pr (map Q2R y))) /\
+  (forall c, fac_transfer (prox_arg_scaling pq c) (prox_arg_scaling pr (Q2R c))) /\
+  fac_transfer (prox_convex_conj pq) (prox_convex_conj pr).
+Proof. intros pq pr H. repeat split; intros; [apply translation_transfer|apply arg_scaling_transfer|apply convex_conj_transfer]; exact H. Qed.
+Print Assumptions rules_transfer.
 
 (* non-vacuity: a weighted, translated, scaled, perturbed separable tree is well-formed *)
 Example wf_example :
